@@ -22,43 +22,68 @@ def op_kind(o):
     return ("handle:" + o[2][0]) if o[0] == "handle" else o[0]
 
 
-def attribute(ops, outs, k):
-    """property a first divergence at step k is attributed to (DESIGN section 5)"""
-    o = ops[k]
-    kind = o[0]
-    # the last state-changing op at or before k, and whether some op before k raised
-    prev_write = None
+QUERY_READS = {"search", "count", "contains", "get", "select"}
+REMOVALS = {"remove", "drop", "remove_all"}
+UPDATES = {"update", "update_all"}
+
+
+def _kind(o):
+    """(kind, through a handle?)"""
+    return (o[2][0], True) if o[0] == "handle" else (o[0], False)
+
+
+def scopes(csv, auto, ops, outs, k):
+    """the properties in whose scope a divergence at step k lies (DESIGN section 5).  Only the first divergence of a
+    history is used (afterwards model and implementation may be in different states); it is attributed to EVERY
+    property whose statement speaks about that step, so one defect can be reported by several checks."""
+    kind, via_handle = _kind(ops[k])
+    sc = set()
+    # the last state-changing operation at or before k
+    prev = None
     for j in range(k, -1, -1):
-        kj = ops[j][0] if ops[j][0] != "handle" else ops[j][2][0]
-        if kj in WRITE_KINDS or kj in ("insert",):
-            prev_write = (j, ops[j])
+        kj, hj = _kind(ops[j])
+        if kj in WRITE_KINDS:
+            prev = (j, kj, hj)
             break
-    if kind == "handle":
-        return "C10"
-    if kind in ("index_valid",):
-        if prev_write and outs[prev_write[0]][0] == "raise":
-            return "C11"
-        return "C06"
-    observing = kind in ("iter",) and prev_write is not None and prev_write[0] < k
-    if observing or kind in WRITE_KINDS:
-        w = prev_write[1] if observing else o
-        wk = w[0] if w[0] != "handle" else w[2][0]
-        wj = prev_write[0] if observing else k
-        if outs[wj][0] == "raise":
-            return "C11"
-        if wk in ("remove", "drop", "remove_all"):
-            return "C02"
-        if wk in ("update", "update_all"):
-            return "C03"
-        if wk == "insert":
-            return "C11" if any(p is None for p in w[1]) else "C01"
-        if wk in ("reindex", "reopen"):
-            return "C06"
+    if kind in QUERY_READS:
+        sc.add("C01")
     if kind in GETTERS:
-        return "C07"
-    if kind in ("search", "count", "contains", "get", "select"):
-        return "C01"
-    return "C01"
+        sc.add("C07")
+    if via_handle:
+        sc.add("C10")
+    if prev is not None:
+        j, kj, hj = prev
+        if kj in REMOVALS:
+            sc.add("C02")
+        if kj in UPDATES:
+            sc.add("C03")
+        if hj:
+            sc.add("C10")
+        if outs[j][0] == "raise":
+            sc.add("C11")
+        if kj == "insert" and kind in ("insert", "iter", "all", "len"):
+            sc.add("C01")                       # what was inserted is what is stored
+        if kj in ("reindex", "reopen"):
+            sc.add("C06")
+    # C06: the validity flag itself, and every answer given while the index is (or must be) valid
+    if kind == "index_valid":
+        sc.add("C06")
+    elif kind in QUERY_READS or kind in GETTERS:
+        last_valid = None
+        for j in range(k - 1, -1, -1):
+            if ops[j][0] == "index_valid" and outs[j][0] == "bool":
+                last_valid = outs[j][1]
+                break
+            if _kind(ops[j])[0] in WRITE_KINDS:
+                break
+        if auto or last_valid:
+            sc.add("C06")
+    return sc or {"C01"}
+
+
+def attribute(ops, outs, k):
+    """kept for reports: the single most specific property of a step"""
+    return sorted(scopes(False, True, ops, outs, k))[0]
 
 
 def in_known_class(csv, ops, k):
@@ -191,7 +216,8 @@ def direct_oracle(cases):
             checked += 1
             if not pyspec.same(want, x):
                 bad.append((ci, k, want))
-                break
+                db = None                     # resynchronise on the implementation's own contents at the next iteration
+                continue
             db = db2
     return bad, checked
 
@@ -225,15 +251,15 @@ def db_check(pid, tier, seed, profile, n_quick, n_thorough, prop_module, claims_
     mine, elsewhere, known_hits = [], Counter(), Counter()
     for ci, k in res["divergences"]:
         csv, auto, ops, outs = cases[ci]
-        a = attribute(ops, outs, k)
+        sc = scopes(csv, auto, ops, outs, k)
         kc = in_known_class(csv, ops, k)
         if kc:
             known_hits[kc] += 1
             continue
-        if a == pid:
+        if pid in sc:
             mine.append((ci, k))
         else:
-            elsewhere[a] += 1
+            elsewhere["/".join(sorted(sc))] += 1
     for name, tail in res["failed_files"]:
         ck.violation({"kind": "model-evaluation-failed", "what_no_longer_checks": f"coqc on generated {name}", "log": tail}, no_input=True)
     if not b["ok"]:
@@ -241,7 +267,8 @@ def db_check(pid, tier, seed, profile, n_quick, n_thorough, prop_module, claims_
                       "log": b["log"][-2000:], "forbidden": b["forbidden"]}, no_input=True)
     reported = 0
     spec_bad, spec_checked = direct_oracle(cases)
-    spec_mine = [(ci, k, want) for ci, k, want in spec_bad if attribute(cases[ci][2], cases[ci][3], k) == pid]
+    spec_mine = [(ci, k, want) for ci, k, want in spec_bad if pid in scopes(cases[ci][0], cases[ci][1], cases[ci][2], cases[ci][3], k)]
+    spec_at = {(ci, k): want for ci, k, want in spec_bad}
     for ci, k, want in spec_mine[:2]:
         csv, auto, ops, outs = cases[ci]
         if (ci, k) in mine:
@@ -253,9 +280,16 @@ def db_check(pid, tier, seed, profile, n_quick, n_thorough, prop_module, claims_
     for ci, k in mine[:3]:
         csv, auto, ops, outs = cases[ci]
         ops = ops[:k + 1]
-        spec = pyspec.expected(csv, ops, tf)
+        spec = spec_at.get((ci, k))
         impl_out = outs[k]
-        genuine = spec is not None and not pyspec.same(spec, impl_out)
+        genuine = spec is not None
+        if not genuine:
+            # the step itself agrees with the documented meaning (or the meaning is silent there, e.g. index.valid):
+            # look for a later step of the same history where the implementation contradicts it
+            later = [(k2, w) for (c2, k2, w) in spec_bad if c2 == ci and k2 > k and pid in scopes(csv, auto, cases[ci][2], outs, k2)]
+            if later:
+                k, spec = later[0]
+                ops, impl_out, genuine = cases[ci][2][:k + 1], outs[k], True
         replay = {"kind": "failing-input" if genuine else "correspondence-broken",
                   "config": {"csv": csv, "auto_index": auto, "TZ": os.environ.get("TZ", "UTC")},
                   "ops": ops, "first_differing_step": k, "implementation_output": impl_out,
